@@ -670,6 +670,13 @@ def manifest(pid, tier, replay):
 
         if replay:
             rp = json.load(open(replay))
+            if rp.get("lex"):
+                vp = os.path.join(wd, "lexv.ndjson")
+                open(vp, "w").write(json.dumps({"in": rp["in"], "value": rp["exp"]["value"], "paths": rp["exp"]["paths"]}) + "\n")
+                n, bad = fnlib.fn_check(bins["fn"], "lex", vp, wd)
+                for b in bad:
+                    found.append((replay, "the lexer reads %r as %s, the documented syntax means %s" % (bytes(b["in"]), json.dumps(b["got"])[:200], json.dumps(b["exp"])[:200])))
+                return report(pid, found, {})
             run([(rp["files"], rp["exp"], rp.get("layout", ""))])
             return report(pid, found, {})
         K = 150 if tier == "quick" else 1500
@@ -716,6 +723,17 @@ def manifest(pid, tier, replay):
                 continue
             ntok += 1
             vectors.append((j["files"], e, "token-mutant"))
+        # character level: every string over the lexer alphabet (spec/Lexer.tla) read in value and in path context
+        lmc = fnlib.mc_run("Lexer.tla", "SPECIFICATION Spec\nCONSTANT MaxLen = %d\nINVARIANT Total\nCHECK_DEADLOCK FALSE\n" % (5 if tier == "quick" else 6), wd, workers=8)
+        if lmc["error"]:
+            raise Broken("Lexer model check failed: %s\n%s" % (lmc["error"], lmc["out"][-1500:]))
+        lvec = fnlib.export_vectors("Lexer.tla", wd, {"EXPLEN": 5}, name="lex.ndjson")
+        nlex, lbad = fnlib.fn_check(bins["fn"], "lex", lvec, wd)
+        for b in lbad:
+            nviol += 1
+            if len(found) < 25:
+                p = save_replay(pid, "lex-%d" % nviol, {"property": pid, "lex": True, "in": b["in"], "exp": b["exp"], "got": b["got"]})
+                found.append((p, "the lexer reads %r as %s, the documented syntax means %s" % (bytes(b["in"]), json.dumps(b["got"])[:200], json.dumps(b["exp"])[:200])))
         stats = run(vectors)
         acc = [v for v in vectors if v[1]["ok"]]
         write_evidence(pid, tier, "model_checking", {
@@ -730,6 +748,8 @@ def manifest(pid, tier, replay):
                     "and a layout variant (CRLF, comments, $-newline continuations, $x for ${x}); non-trivial = programs accepted by the reference (their whole graph is compared)",
             "accepted_programs": stats["accepted"], "rejected_programs": stats["rejected"], "exhaustive": False,
             "programs_skipped_for_untabulated_quoting": nskip_ast,
+            "lexer": {"states": lmc["distinct"], "strings_replayed": nlex, "alphabet": "a $ { } space : | LF CR ^ .",
+                      "rule": "spec/Lexer.tla: every string up to the bound read as a value and as a list of paths by the reference and by the real Lexer (ReadVarValue / ReadPath, then the kind of the next token)"},
             "token_mutants": {"states": tr["distinct"], "exported": ntok, "skipped_for_untabulated_quoting": ntok_skipped,
                               "rule": "spec/ManifestTok.tla: deletion, duplication, adjacent swap, substitution / insertion of structural and hostile tokens (':' '|' '||' '|@' '=' newline indent "
                                       "tab bad-escape keywords names) at every position and every truncation of 3 valid token-level programs; mutants where ninja's lexer would split a word are unspecified and not exported"},
